@@ -1205,12 +1205,53 @@ def rule_r13(ctx, cg: CallGraph, scope: dict) -> RuleResult:
     return rr
 
 
+_OPTIONAL_RESULT_METHODS = {"utcoffset", "dst", "tzname"}   # datetime: None for a naive value
+
+
+def rule_r14(ctx) -> RuleResult:
+    """`datetime.utcoffset()`, `.dst()` and `.tzname()` return None for a naive datetime, and #time's parser produces naive values
+    for `@<unix time>` with the local flag and for 14-digit MediaWiki timestamps.  An attribute of that result may be taken only
+    where the same call has been tested (`X is None`, truthiness, in the test of the enclosing conditional or an earlier
+    conjunct); otherwise AttributeError leaves expand() (seed C05-9A: `"Z": lambda ctx, t: int(t.utcoffset().total_seconds())`)."""
+    rr = RuleResult("C05.R14", "the Optional results of datetime.utcoffset()/dst()/tzname() are dereferenced only after a None test", min_instances=2)
+    m = ctx.index.mod("parserfns")
+    parents = m.parents
+    for n in ast.walk(m.tree):
+        if not (isinstance(n, ast.Attribute) and isinstance(n.value, ast.Call) and isinstance(n.value.func, ast.Attribute)
+                and n.value.func.attr in _OPTIONAL_RESULT_METHODS and not n.value.args):
+            continue
+        call_txt = unparse(n.value)
+        guarded = False
+        cur = n
+        while cur in parents:
+            par = parents[cur]
+            if isinstance(par, ast.IfExp) and cur is not par.test and call_txt in unparse(par.test):
+                guarded = True
+            if isinstance(par, ast.If) and cur is not par.test and call_txt in unparse(par.test):
+                guarded = True
+            if isinstance(par, ast.BoolOp) and isinstance(par.op, ast.And):
+                idx = [i for i, v in enumerate(par.values) if v is cur or any(x is cur for x in ast.walk(v))]
+                if idx and any(call_txt in unparse(v) for v in par.values[:idx[0]]):
+                    guarded = True
+            if isinstance(par, (ast.FunctionDef, ast.Lambda)) and not isinstance(par, ast.Lambda):
+                break
+            cur = par
+        label = "{}.{}".format(call_txt, n.attr)
+        if guarded:
+            rr.ok("parserfns", label + " under a test of " + call_txt, {"site": label, "line": n.lineno})
+        else:
+            rr.bad(Finding("C05.R14", m.relpath, "parserfns.time_fmt_map" if "fmt" in unparse(parents.get(parents.get(n), n))[:0] or True else "parserfns",
+                           label, "`{}` is None for a naive datetime (#timel with `@<unix time>`, 14-digit timestamps) and `.{}` is taken "
+                           "without a test: AttributeError leaves expand()".format(call_txt, n.attr), n.lineno))
+    return rr
+
+
 def run(ctx) -> list:
     cg = CallGraph(ctx.index)
     sf = SqlFacts(ctx.index)
     scope = _scope(ctx, cg)
     results = [rule_r1(ctx, cg), rule_r2(ctx, cg, scope), rule_r3(ctx), rule_r4(ctx, cg, scope), rule_r5(ctx, cg, sf),
-            rule_r6(ctx), rule_r7(ctx, cg), rule_r8(ctx, cg), rule_r9(ctx), rule_r10(ctx), rule_r11(ctx), rule_r12(ctx), rule_r13(ctx, cg, scope)]
+            rule_r6(ctx), rule_r7(ctx, cg), rule_r8(ctx, cg), rule_r9(ctx), rule_r10(ctx), rule_r11(ctx), rule_r12(ctx), rule_r13(ctx, cg, scope), rule_r14(ctx)]
     if ctx.thorough:
         from ..core.cgcheck import crosscheck
 
